@@ -1,5 +1,8 @@
 """C05 - rolling appender stream integrity: Rolling.tla model-checked; behaviours (appends, restarts,
 every trigger kind, window / delete rollers) replayed on the real appender."""
+import json
+import os
+
 from driver import common as C
 from driver import rolling_common as R
 
@@ -45,9 +48,43 @@ def instances(tier):
 def run(tier, replay=None):
     run = C.Run(PID, tier, "model_checking")
     cases = R.run_instances(run, "c05_" + tier, instances(tier), R.has_roll)
+    # long behaviours (hundreds of records in one history), sampled by TLC's simulation mode
+    deep = 400 if tier == "quick" else 1000
+    R.deep_runs(run, "c05", [R.inst("deep_size", trig="size", count=2, limit=2, sizes=(1, 2, 3), maxrec=deep, faults=6, crash=3, restart=6, obst=4, encfail=4),
+                        R.inst("deep_pre_t", trig="pre", append=False, count=3, sizes=(1, 2), maxrec=deep, faults=4, crash=2, restart=6, obst=2),
+                        R.inst("deep_post", trig="post", base=1, count=2, sizes=(0, 1, 2), maxrec=deep, faults=4, crash=3, restart=4, obst=2, encfail=3)], 40 if tier == "quick" else 400)
     # concurrent writers: traces of real threads validated against the specification
     R.concurrent_traces(run, "c05", "size", 3, 80 if tier == "quick" else 2000, long=80 if tier == "quick" else 600)
     R.concurrent_traces(run, "c05", "size", 1, 40 if tier == "quick" else 1000)
+    # --- background rotation: the hand-off protocol (BackgroundRotation.tla: rotation threads step by step, restarts
+    # inside one process, liveness under weak fairness), then the unperturbed behaviours replayed on a second build of
+    # the harness against log4rs with the background_rotation feature; appends and restarts overlap the rotation
+    # thread and the directory is compared at the end of every history (QuiescentWindow)
+    res = C.run_tlc("BackgroundRotation", "MC_BackgroundRotation.cfg" if tier == "quick" else "MC_BackgroundRotation_t.cfg",
+                    "c05_bgmodel", workers=4, timeout=1200, coverage=False)
+    if res.inv_violated:
+        run.mismatch({"kind": "model", "invariant": res.inv_violated, "build": "background_rotation"}, {"tlc": res.error_text[:6000]})
+    else:
+        run.add_tlc(res)
+    bg_cases, bg_waits = 0, 0
+    for i in instances(tier):
+        if not i["hist"] or i["faults"] or i["crash"] or i["obst"] or i["encfail"]:
+            continue
+        wd = os.path.join(C.WORK, "c05_%s_%s" % (tier, i["name"]))
+        inp, outp = os.path.join(wd, "cases.ndjson"), os.path.join(wd, "out_bg.ndjson")
+        p = C.run_harness(["rolling", inp, outp], timeout=1500, features=["bgrot"])
+        summ = json.loads(p.stdout.strip().splitlines()[-1])
+        if not summ.get("background_rotation"):
+            raise C.ToolError("the bgrot build does not have background rotation")
+        bg_cases += summ["cases"]
+        bg_waits += summ["waited_for_background_rotation"]
+        for m in C.read_ndjson(outp):
+            run.mismatch({"kind": m["mismatch"]["what"], "build": "background_rotation", "trig": m["params"]["trig"],
+                          "instance": i["name"]}, m)
+    if bg_cases and not bg_waits:
+        raise C.ToolError("background rotation never overlapped the replay: the build or the settle logic is off")
+    run.traces += bg_cases
+    run.extra.update({"background_rotation_histories": bg_cases, "ends_that_waited_for_a_rotation_thread": bg_waits})
     if not run.mismatches and run.nontrivial < 50:
         raise C.ToolError("vacuous run: %d behaviours with a rotation" % run.nontrivial)
     run.exhaustive = True
@@ -56,8 +93,11 @@ def run(tier, replay=None):
                 "RollingFileAppender with 3 materialisations (10-byte units + PatternEncoder; 400-byte units "
                 "straddling the 1 KiB buffer + two-chunk encoder + count-0 window roller; gzip archives); after "
                 "every operation every file is parsed back into record ids and compared with the specification's "
-                "directory; non-trivial = a rotation happened")
-    run.assumptions = ["record sizes are multiples of the unit; time trigger represented by the scripted "
+                "directory; non-trivial = a rotation happened; the unperturbed histories run a second time on a build "
+                "with the background_rotation feature (directory compared at the end of each history, when the "
+                "rotation threads have finished), after BackgroundRotation.tla has been model-checked (step-wise "
+                "rotation threads, restarts inside one process, NoOrphan under weak fairness)")
+    run.assumptions = ["long behaviours (400 / 1000 records with faults, crashes, restarts, obstacles and encoder failures) are sampled by TLC -simulate (40 / 400 per instance), not enumerated", "record sizes are multiples of the unit; time trigger represented by the scripted "
                        "pre-process trigger (its schedule is C16's subject)",
                        "replays are single-threaded; concurrent writers are covered by sampled schedules of 2-4 real threads whose traces (events under the appender mutex) are validated against Rolling.tla"]
     return run.finish()
